@@ -53,7 +53,20 @@ fn main() {
     match args[1].as_str() {
         "debug-pool" => {
             let p = c15::pool();
-            println!("off_subgroup={} torsion={}", p.off_subgroup.len(), p.torsion.len());
+            println!("off_subgroup={} torsion={} shifted_pks={}", p.off_subgroup.len(), p.torsion.len(), p.shifted_pks.len());
+            for (spk, k) in &p.shifted_pks {
+                let m = &p.msgs[3];
+                let mut aug = spk.to_bytes().to_vec();
+                aug.extend_from_slice(m);
+                let sig = chia_bls::sign_raw(&p.sks[*k], &aug);
+                let cache = chia_bls::BlsCache::default();
+                println!(
+                    "shifted key (outside subgroup): aggregate_verify={} verify={} BlsCache::aggregate_verify={}",
+                    chia_bls::aggregate_verify(&sig, [(spk, m.as_slice())]),
+                    chia_bls::verify(&sig, spk, m),
+                    cache.aggregate_verify([(spk, m.as_slice())], &sig)
+                );
+            }
             for t in &p.torsion {
                 let mut s = p.sigs[0][1].clone();
                 s.aggregate(t);
